@@ -410,14 +410,19 @@ func init() {
 				continue
 			}
 			loops := 0
-			for _, b := range f.Blocks {
-				if !isLoopHead(b) {
-					continue
-				}
-				loops++
-				for _, e := range loopEarlyExits(b) {
-					succ := e.From.Succs[e.Succ]
-					c.Check(edgeOnlyFails(w, f, succ), k.key(f, "loop over events/attributes is left early only with an error"), w.ipos(e.From.Instrs[len(e.From.Instrs)-1]), "early exit = failing return", "the loop over events or attributes can be left early without an error: the remaining attributes are not indexed")
+			// the two loops, in the function itself or in a helper carved out of it (the attribute loop as a
+			// function of its own): an early exit of a helper's loop is a failing return of the helper, which
+			// the caller's loop in turn leaves only with an error
+			for _, g := range append([]*ssa.Function{f}, transparentBodies(f)...) {
+				for _, b := range g.Blocks {
+					if !isLoopHead(b) {
+						continue
+					}
+					loops++
+					for _, e := range loopEarlyExits(b) {
+						succ := e.From.Succs[e.Succ]
+						c.Check(edgeOnlyFailsDeep(w, f, succ), k.key(f, "loop over events/attributes is left early only with an error"), w.ipos(e.From.Instrs[len(e.From.Instrs)-1]), "early exit = failing return", "the loop over events or attributes can be left early without an error: the remaining attributes are not indexed")
+					}
 				}
 			}
 			c.Check(loops >= 2, funcKey(f)+" :: event and attribute loops found", w.pos(f.Pos()), ">= 2 loops", fmt.Sprintf("%d", loops))
@@ -515,7 +520,8 @@ func rawCallsTo(w *World, f *ssa.Function, spec string) []ssa.CallInstruction {
 // load through it) only where it is known non-nil.
 func guardNonNil(name string, v ssa.Value) Guard {
 	return Guard{Name: name, Key: fmt.Sprintf("nonnil:%p", v), Match: func(w *World, f *ssa.Function, a Atom) bool {
-		return a.Kind == "nonnil" && a.V != nil && sameValue(a.V, v)
+		// the same value, or a second read of the same place (`xs[i] == nil` … `xs[i].M()`)
+		return a.Kind == "nonnil" && a.V != nil && (sameValue(a.V, v) || w.expr(a.V) == w.expr(v))
 	}}
 }
 
@@ -590,17 +596,19 @@ func init() {
 			}
 			fk := funcKey(f)
 			n := 0
-			for _, b := range f.Blocks {
-				for _, in := range b.Instrs {
-					call, ok := in.(*ssa.Call)
-					if !ok || !call.Call.IsInvoke() || call.Call.Method.Name() != "Set" {
-						continue
-					}
-					n++
-					for _, r := range spec.reserved {
-						val := c.mustConstString("types", r)
-						c.guards(f, call, fmt.Sprintf("%s :: write an event entry", fk), 0,
-							guardCmp("the composite key is not the reserved "+val, `fmt\.Sprintf\("%s\.%s", .*\)`, "!=", regexp.QuoteMeta(fmt.Sprintf("%q", val))))
+			for _, g := range append([]*ssa.Function{f}, transparentBodies(f)...) {
+				for _, b := range g.Blocks {
+					for _, in := range b.Instrs {
+						call, ok := in.(*ssa.Call)
+						if !ok || !call.Call.IsInvoke() || call.Call.Method.Name() != "Set" {
+							continue
+						}
+						n++
+						for _, r := range spec.reserved {
+							val := c.mustConstString("types", r)
+							c.guards(g, call, fmt.Sprintf("%s :: write an event entry", fk), 0,
+								guardCmp("the composite key is not the reserved "+val, `fmt\.Sprintf\("%s\.%s", .*\)`, "!=", regexp.QuoteMeta(fmt.Sprintf("%q", val))))
+						}
 					}
 				}
 			}
@@ -625,32 +633,58 @@ func init() {
 		for _, n := range []string{"EventTypeKey", "TxHashKey", "TxHeightKey"} {
 			reserved[c.mustConstString("types", n)] = true
 		}
-		want := map[string]int{"EventBus.PublishEventTx": 3, "EventBus.PublishEventNewBlock": 1, "EventBus.PublishEventNewBlockHeader": 1}
+		reservedKeyOf := func(in ssa.Instruction) (string, *ssa.MapUpdate) {
+			mu, ok := in.(*ssa.MapUpdate)
+			if !ok {
+				return "", nil
+			}
+			k, isK := stripConv(mu.Key).(*ssa.Const)
+			if !isK || k.Value == nil || k.Value.Kind() != constant.String || !reserved[constant.StringVal(k.Value)] {
+				return "", nil
+			}
+			return constant.StringVal(k.Value), mu
+		}
+		// (a) wherever a method of the bus (or a helper of it) stores under a reserved key, the value is fresh
+		nStores := 0
+		ky := newKeyer()
+		for _, f := range w.FuncsInPkg("types") {
+			if f.Signature.Recv() == nil || !strings.Contains(f.Signature.Recv().Type().String(), "EventBus") {
+				continue
+			}
+			for _, b := range f.Blocks {
+				for _, in := range b.Instrs {
+					key, mu := reservedKeyOf(in)
+					if mu == nil {
+						continue
+					}
+					nStores++
+					elems := sliceElems(mu.Value)
+					c.Check(len(elems) == 1, ky.key(f, "value stored under "+key), w.ipos(mu), "a fresh list with the bus's own value", "stores "+w.expr(mu.Value)+": values the application's events put under "+key+" survive and decide who receives the publication")
+				}
+			}
+		}
+		c.Check(nStores >= 3, "types.EventBus :: stores under reserved keys found", "-", ">= 3", fmt.Sprintf("%d", nStores))
+		// (b) each publisher that carries application events sets its reserved keys (itself or in a helper)
+		want := map[string][]string{
+			"EventBus.PublishEventNewBlock":       {"tm.event"},
+			"EventBus.PublishEventNewBlockHeader": {"tm.event"},
+			"EventBus.PublishEventTx":             {"tm.event", "tx.hash", "tx.height"},
+		}
 		for _, name := range []string{"EventBus.PublishEventNewBlock", "EventBus.PublishEventNewBlockHeader", "EventBus.PublishEventTx"} {
-			n := want[name]
 			f := c.fn("types", name)
 			if f == nil {
 				continue
 			}
 			fk := funcKey(f)
-			got := 0
-			for _, b := range f.Blocks {
-				for _, in := range b.Instrs {
-					mu, ok := in.(*ssa.MapUpdate)
-					if !ok {
-						continue
-					}
-					k, isK := stripConv(mu.Key).(*ssa.Const)
-					if !isK || k.Value == nil || k.Value.Kind() != constant.String || !reserved[constant.StringVal(k.Value)] {
-						continue
-					}
-					got++
-					key := constant.StringVal(k.Value)
-					elems := sliceElems(mu.Value)
-					c.Check(len(elems) == 1, fk+" :: value stored under "+key, w.ipos(mu), "a fresh list with the bus's own value", "stores "+w.expr(mu.Value)+": values the application's events put under "+key+" survive and decide who receives the publication")
+			got := map[string]bool{}
+			for _, di := range w.deepInstrs(f, 2) {
+				if key, mu := reservedKeyOf(di.in); mu != nil {
+					got[key] = true
 				}
 			}
-			c.Check(got == n, fk+" :: reserved keys set", w.pos(f.Pos()), fmt.Sprintf("%d", n), fmt.Sprintf("%d", got))
+			for _, k := range want[name] {
+				c.Check(got[k], fk+" :: sets "+k, w.pos(f.Pos()), "stored before publishing", "the publication leaves "+k+" to the application's events")
+			}
 		}
 	})
 }
@@ -669,21 +703,24 @@ func init() {
 		}
 		fk := funcKey(f)
 		n := 0
-		for _, b := range f.Blocks {
-			for _, in := range b.Instrs {
-				call, ok := in.(*ssa.Call)
-				if !ok {
-					continue
+		// in Matches itself or in a predicate carved out of it
+		for _, g := range append([]*ssa.Function{f}, transparentBodies(f)...) {
+			for _, b := range g.Blocks {
+				for _, in := range b.Instrs {
+					call, ok := in.(*ssa.Call)
+					if !ok {
+						continue
+					}
+					d, okd := describeCallee(call)
+					if !okd || d.Pkg != "strings" || !(d.Name == "Index" || d.Name == "HasPrefix") {
+						continue
+					}
+					if !strings.Contains(w.expr(callArgs(call)[0]), "range(") {
+						continue
+					}
+					n++
+					c.guards(g, call, fk+" :: prefix scan over the event keys", 0, guardRe("the attribute has no dot (it is an event type)", `^false\(strings\.Contains\(.*, "\."\)\)$`))
 				}
-				d, okd := describeCallee(call)
-				if !okd || d.Pkg != "strings" || !(d.Name == "Index" || d.Name == "HasPrefix") {
-					continue
-				}
-				if !strings.Contains(w.expr(callArgs(call)[0]), "range(events)") {
-					continue
-				}
-				n++
-				c.guards(f, call, fk+" :: prefix scan over the event keys", 0, guardRe("the attribute has no dot (it is an event type)", `^false\(strings\.Contains\(.*, "\."\)\)$`))
 			}
 		}
 		c.Check(n == 1, fk+" :: prefix scan found", w.pos(f.Pos()), "1", fmt.Sprintf("%d", n))
